@@ -7,5 +7,6 @@ CONSTANTS
   WR <- Write
   TD <- ToDec
   NT <- NumTextBug
+  NTL <- NumTextLoc
 INVARIANTS LawDecBigRoundTrip
 CHECK_DEADLOCK FALSE
